@@ -4,13 +4,14 @@ Regression over everything kept under /verif/seeded: every seeded change must be
 reported by the check of the property it breaks (exit 1 + VIOLATION), every
 benign refactoring must leave all checks at exit 0.  Works on scratch copies of
 <repo>/src (outside /repo and /verif); prints one line per case.
-usage: tools_regress.py [--jobs 16] [--repo /repo]
+usage: tools_regress.py [--jobs 16] [--repo /repo] [--all]
 """
 import glob, json, os, re, shutil, subprocess, sys, tempfile
 from concurrent.futures import ThreadPoolExecutor
 VERIF = os.path.dirname(os.path.abspath(__file__))
 PROPS = [f"C{n:02d}" for n in range(1, 21)]
 RULES = {}
+ALL_FOR_SEEDS = "--all" in sys.argv  # by default a seeded change is only run through the check of the property it breaks
 
 def run_case(case, repo):
     name, patch, own = case
@@ -21,7 +22,7 @@ def run_case(case, repo):
         if res.returncode != 0:
             return name, "STALE", res.stdout[-200:]
         fired, rules = {}, {}
-        for pid in PROPS:
+        for pid in (PROPS if own is None or ALL_FOR_SEEDS else [own]):
             env = dict(os.environ, VERIF_EVIDENCE_DIR=os.path.join(tmp, "ev"))
             r = subprocess.run(["/venv/bin/python", os.path.join(VERIF, "sa", "check.py"), pid, "--repo", tmp], capture_output=True, text=True, env=env, timeout=300)
             if r.returncode != 0:
